@@ -292,8 +292,14 @@ fn write_all_or_nothing(dest: &Path, bytes: &[u8]) -> std::io::Result<()> {
         file.flush()
     }
 
-    // Write through symlinks, rather than replacing them
-    let dest = fs::canonicalize(dest).unwrap_or(dest.to_path_buf());
+    // Write through symlinks, rather than replacing them. A destination that does not exist yet
+    // is taken as given; one that cannot be resolved for another reason (too many levels of
+    // symbolic links) is an error, it must not be replaced blindly
+    let dest = match fs::canonicalize(dest) {
+        Ok(resolved) => resolved,
+        Err(err) if err.kind() == std::io::ErrorKind::NotFound => dest.to_path_buf(),
+        Err(err) => return Err(err),
+    };
     // Devices, pipes, etc. cannot be replaced by renaming; a failed write leaves nothing behind
     if fs::metadata(&dest).is_ok_and(|meta| !meta.is_file()) {
         return write(&dest, bytes);
